@@ -82,7 +82,32 @@ fn base(rng: &mut Rng, thorough: bool) -> Knobs {
         selfsame_p: 0,
         extra_clone_p: 2 + rng.below(3) as u32,
         consuming_on_adopted: false,
+        dtor_downgrade_p: 0,
     }
+}
+
+/// One run in `one_in`: a hub with many peers in both directions (tables and the
+/// trace's map well past their initial capacities, > 16 distinct records in one
+/// table), followed by a walk that removes and re-records adoptions and lets peers die.
+fn dense_hub(rng: &mut Rng, kn: &mut Knobs, thorough: bool, one_in: u32) {
+    if !rng.chance(1, one_in) {
+        return;
+    }
+    kn.shape = 10;
+    kn.shape_objs = 8 + rng.below(if thorough { 8 } else { 5 });
+    kn.max_objs = kn.shape_objs + rng.below(3);
+    kn.adopt_p = 8;
+    kn.max_mult = 1 + rng.below(2);
+    kn.walk_len = 16 + rng.below(40);
+    set_w(kn, K::New, 2);
+    set_w(kn, K::Clone, 8);
+    set_w(kn, K::Drop, 14);
+    set_w(kn, K::Store, 14);
+    set_w(kn, K::Take, 12);
+    set_w(kn, K::Adopt, 4);
+    set_w(kn, K::Unadopt, 6);
+    kn.extra_clone_p = 1;
+    kn.drain = true;
 }
 
 fn recording_discipline(rng: &mut Rng, kn: &mut Knobs) {
@@ -139,6 +164,7 @@ pub fn knobs(profile: &str, thorough: bool, rng: &mut Rng) -> Knobs {
             // keep outside handles alive across collections and use them afterwards
             kn.extra_clone_p = 3 + rng.below(4) as u32;
             set_w(&mut kn, K::Clone, 12);
+            dense_hub(rng, &mut kn, thorough, 40);
         }
         "C02" => {
             recording_discipline(rng, &mut kn);
@@ -150,6 +176,10 @@ pub fn knobs(profile: &str, thorough: bool, rng: &mut Rng) -> Knobs {
             if rng.chance(1, 3) {
                 kn.shape = 8;
             }
+            if rng.chance(1, 4) {
+                kn.dtor_downgrade_p = 1 + rng.below(3) as u32;
+            }
+            dense_hub(rng, &mut kn, thorough, 40);
         }
         "C03" => {
             if rng.chance(1, 4) {
@@ -175,6 +205,9 @@ pub fn knobs(profile: &str, thorough: bool, rng: &mut Rng) -> Knobs {
             with_weak(rng, &mut kn, true);
             with_unmatched(rng, &mut kn);
             kn.drain = true;
+            if rng.chance(1, 4) {
+                kn.dtor_downgrade_p = 1 + rng.below(3) as u32;
+            }
         }
         "C05" => {
             if rng.chance(1, 3) {
@@ -183,6 +216,9 @@ pub fn knobs(profile: &str, thorough: bool, rng: &mut Rng) -> Knobs {
             with_weak(rng, &mut kn, true);
             kn.weak_p = 5 + rng.below(4) as u32;
             with_selfsame(rng, &mut kn);
+            if rng.chance(1, 2) {
+                kn.dtor_downgrade_p = 1 + rng.below(4) as u32;
+            }
         }
         "C06" => {
             recording_discipline(rng, &mut kn);
@@ -213,6 +249,7 @@ pub fn knobs(profile: &str, thorough: bool, rng: &mut Rng) -> Knobs {
             set_w(&mut kn, K::Take, 8);
             with_weak(rng, &mut kn, false);
             kn.max_mult = 1 + rng.below(4);
+            dense_hub(rng, &mut kn, thorough, 10);
         }
         "C09" => {
             kn.adopt_p = 8;
